@@ -471,13 +471,13 @@ PLANS["C08"] = {
                   leg("asan", 4, driver="c10", part="rand"), leg("asan", 4, driver="c01", part="boundary"), leg("asan", 2, driver="c09"), leg("asan", 1, driver="c06", part="bitvectors"), leg("bounds", 4, driver="c10", part="rand"), leg("bounds", 4, driver="c01", part="regime"),
                    leg("fuzz", 2, "raw", runs=15000), leg("fuzz", 2, "bv", runs=15000), leg("fuzz", 2, "sparse", runs=15000), leg("fuzz", 2, "rl", runs=15000), leg("fuzz", 2, "wm", runs=15000)],
         "thorough": [leg("rel", 16), leg("dbg", 16), leg("rel-nobmi", 16), leg("dbg-nobmi", 16), leg("bounds", 16), leg("asan", 16), leg("valgrind", 16, scale=4),
-                     leg("miri", 8, "raw", of=40000, budget=10000), leg("miri-wrap", 8, "bv", of=40000, budget=10000), leg("miri-wrap", 6, "sparse", of=40000, budget=8000), leg("miri-wrap", 6, "rl", of=40000, budget=8000),
-                     leg("miri", 4, "wm", of=30000, budget=8000), leg("miri-native", 4, "bv", of=40000, budget=8000), leg("miri-native", 4, "sparse", of=40000, budget=8000),
+                     leg("miri", 8, "raw", of=40000, budget=5000), leg("miri-wrap", 8, "bv", of=40000, budget=5000), leg("miri-wrap", 6, "sparse", of=40000, budget=4000), leg("miri-wrap", 6, "rl", of=40000, budget=4000),
+                     leg("miri", 4, "wm", of=30000, budget=4000), leg("miri-native", 4, "bv", of=40000, budget=4000), leg("miri-native", 4, "sparse", of=40000, budget=4000),
                      leg("asan", 8, driver="c10", part="rand"), leg("asan", 8, driver="c10", part="exh", scale=2), leg("asan", 8, driver="c01"), leg("asan", 8, driver="c02"), leg("asan", 8, driver="c03"),
                      leg("asan", 4, driver="c04"), leg("asan", 4, driver="c05"), leg("asan", 4, driver="c09"), leg("asan", 4, driver="c15"), leg("asan", 4, driver="c19"),
                      leg("bounds", 8, driver="c10", part="rand"), leg("bounds", 8, driver="c01"), leg("bounds", 8, driver="c02"), leg("bounds", 8, driver="c03"), leg("bounds", 4, driver="c09"),
                      leg("valgrind", 8, driver="c09", scale=8), leg("valgrind", 8, driver="c10", part="rand", scale=8),
-                      leg("fuzz", 4, "raw", runs=60000), leg("fuzz", 4, "bv", runs=60000), leg("fuzz", 4, "sparse", runs=60000), leg("fuzz", 4, "rl", runs=60000), leg("fuzz", 4, "wm", runs=60000)],
+                      leg("fuzz", 4, "raw", runs=30000), leg("fuzz", 4, "bv", runs=30000), leg("fuzz", 4, "sparse", runs=30000), leg("fuzz", 4, "rl", runs=30000), leg("fuzz", 4, "wm", runs=30000)],
     },
     "require": {"quick": [("counter", "coverage.methods", 100), ("counter", "calls_panicked", 100), ("build", "bounds", "bounds", True), ("build", "rel", "overflow_checks", False),
                           ("build", "dbg", "overflow_checks", True), ("build", "rel-nobmi", "bmi2", False), ("build", "miri", "miri", True), ("build", "miri-wrap", "overflow_checks", False), ("probe", "mmap_new", 10)]},
